@@ -73,13 +73,26 @@ type c11Row struct {
 	} `json:"exp"`
 }
 
+// sameBytes returns another base64 spelling of the 20 bytes v encodes: the 27th character carries four bits of the digest and
+// two padding bits, which a lenient decoder ignores.
+func sameBytes(v string) string {
+	const alpha = "ABCDEFGHIJKLMNOPQRSTUVWXYZabcdefghijklmnopqrstuvwxyz0123456789+/"
+	if len(v) != 28 {
+		return v + "A"
+	}
+	i := strings.IndexByte(alpha, v[26])
+	return v[:26] + string(alpha[i^1]) + v[27:]
+}
+
 func runAcceptRow(rep *Report, row *c11Row) {
 	var b strings.Builder
 	b.WriteString(row.Req.Method + " /chat HTTP/" + row.Req.Proto + "\r\nHost: example.com\r\n")
 	b.WriteString(joinLines("Connection", row.Req.Conn))
 	b.WriteString(joinLines("Upgrade", row.Req.Upg))
 	if row.Req.Version != "missing" {
-		b.WriteString("Sec-WebSocket-Version: " + row.Req.Version + "\r\n")
+		for _, v := range strings.Split(row.Req.Version, "|") { // "8|13": two header lines
+			b.WriteString("Sec-WebSocket-Version: " + v + "\r\n")
+		}
 	}
 	keyForAccept := goodKey
 	switch row.Req.Key {
@@ -657,6 +670,13 @@ func runDialRow(rep *Report, row *c13Row) {
 			h.Set("Sec-WebSocket-Accept", ws.AcceptKey(goodKey))
 		case "casechanged":
 			h.Set("Sec-WebSocket-Accept", swapCase(ws.AcceptKey(sentKey)))
+		case "samebytes":
+			h.Set("Sec-WebSocket-Accept", sameBytes(ws.AcceptKey(sentKey)))
+		case "nopad":
+			h.Set("Sec-WebSocket-Accept", strings.TrimRight(ws.AcceptKey(sentKey), "="))
+		case "twolines":
+			h.Add("Sec-WebSocket-Accept", ws.AcceptKey(goodKey))
+			h.Add("Sec-WebSocket-Accept", ws.AcceptKey(sentKey))
 		}
 		if row.Resp.Sub == "b|a" { // two header lines: the first one is the selection
 			h.Add("Sec-WebSocket-Protocol", "b")
